@@ -379,6 +379,7 @@ func cmdCheck(args []string) int {
 		"exhaustive":                    false,
 		"harnesses":                     harnessInfo,
 		"bounds":                        spec.Bounds,
+		"bound_parameters_used":         paramsUsed(ms),
 		"outside_bound":                 spec.Outside,
 		"functions_encoded":             len(fnList),
 		"functions_encoded_names":       fnList,
@@ -477,4 +478,15 @@ func encodedFunctions(ms []*Machine) ([]string, int) {
 	}
 	sort.Strings(names)
 	return names, total
+}
+
+// paramsUsed: the values of every vnd.Param bound parameter the harnesses asked for in this run.
+func paramsUsed(ms []*Machine) map[string]int {
+	out := map[string]int{}
+	for _, m := range ms {
+		for k, v := range m.paramsSeen {
+			out[k] = v
+		}
+	}
+	return out
 }
